@@ -6,6 +6,6 @@ Require Extraction.
 Require Import ExtrOcamlBasic.
 Extraction "c13_model.ml"
   total_len brs_init brs_read brs_close_decision
-  crs_init crs_read crs_close
+  crs_init crs_read crs_read_f crs_fuel crs_close
   mkW mkBws bws_write mkCws cws_write cws_close
-  msg_init receive_header rh_fuel prepare_body_read_stream bs_read bs_rest body_size h_chunked.
+  msg_init receive_header rh_fuel prepare_body_read_stream bs_read bs_read_f bs_fuel bs_rest body_size h_chunked.
